@@ -37,10 +37,6 @@ theorem C33_split_is_two_cuts (msg : Bytes) : split3 msg = specSplit3 msg := by
       simp [pySplit_zero, unpack, splitTargets, List.lookup]
       exact ⟨rfl, rfl⟩
 
-/-- the frame `Publisher.__call__` builds -/
-theorem frame_eq (pfx name payload : Bytes) : frame pfx name payload = pfx ++ 32 :: (name ++ 32 :: payload) := by
-  simp [frame, joinParts, joinSep, pyJoin, partOf]
-
 /-- Round trip of the framing: prefix and name without 0x20, ANY payload bytes (spaces included). -/
 theorem C33_roundtrip (pfx name payload : Bytes) (hp : 32 ∉ pfx) (hn : 32 ∉ name) :
     split3 (frame pfx name payload) = some (pfx, name, payload) := by
@@ -96,24 +92,10 @@ theorem C33_ctor_rejects_space {δ} (pfx : Bytes) (dumps : δ → Bytes) (strict
     (mkPublisher pfx dumps = none ↔ 32 ∈ pfx) ∧ (mkDispatcher pfx strict loads = none ↔ 32 ∈ pfx) := by
   simp [mkPublisher, mkDispatcher, publisherRejects, dispatcherRejects]
 
-theorem mkPublisher_some {δ} {pfx : Bytes} {dumps : δ → Bytes} {p : Publisher δ}
-    (h : mkPublisher pfx dumps = some p) : p.pfx = pfx ∧ p.dumps = dumps ∧ 32 ∉ pfx := by
-  unfold mkPublisher at h
-  split at h
-  · cases h
-  · rename_i hr
-    cases h
-    simp [publisherRejects] at hr
-    exact ⟨rfl, rfl, hr⟩
-
 /-- A frame passes the dispatcher's filter iff the dispatcher has no prefix or the prefixes are EQUAL. -/
 theorem C33_prefix_filter (ourPrefix pfx : Bytes) :
     prefixAccepts ourPrefix pfx = true ↔ (ourPrefix = [] ∨ pfx = ourPrefix) := by
   simp [prefixAccepts]
-
-/-- every DocumentNames member is space-free, valid UTF-8 -/
-theorem documentNames_ok : ∀ n ∈ documentNames, 32 ∉ n ∧ validUtf8 n = true := by
-  decide
 
 /-! ### one message -/
 
@@ -167,12 +149,8 @@ def NotForUs {δ} (cfg : Dispatcher δ) (msg : Bytes) : Prop :=
   ∃ pfx name payload, specSplit3 msg = some (pfx, name, payload) ∧ validUtf8 name = true ∧
     cfg.ourPrefix ≠ [] ∧ pfx ≠ cfg.ourPrefix
 
-theorem fail_cases {δ} (cfg : Dispatcher δ) (s : Stage) :
-    (fail cfg s = .raise s ∧ cfg.strict = true) ∨ (fail cfg s = .drop s ∧ cfg.strict = false) := by
-  cases hs : cfg.strict <;> cases s <;> simp [fail, onFailure, hs]
-
 /-- the loop body delivers exactly what the message carries, and nothing otherwise -/
-theorem carries_eq_step {δ} (cfg : Dispatcher δ) (msg : Bytes) :
+theorem C33_step_delivers_carried {δ} (cfg : Dispatcher δ) (msg : Bytes) :
     carries cfg msg = match pollStep cfg msg with
       | .deliver n d => some (n, d)
       | _ => none := by
@@ -221,7 +199,7 @@ theorem C33_deliver_sound {δ} (cfg : Dispatcher δ) (msg name : Bytes) (d : δ)
     (h : pollStep cfg msg = .deliver name d) :
     ∃ pfx payload, msg = frame pfx name payload ∧ 32 ∉ pfx ∧ 32 ∉ name ∧ name ∈ documentNames ∧
       cfg.loads payload = some d ∧ (cfg.ourPrefix = [] ∨ pfx = cfg.ourPrefix) := by
-  have hc := carries_eq_step cfg msg
+  have hc := C33_step_delivers_carried cfg msg
   rw [h] at hc
   unfold carries at hc
   cases hs : specSplit3 msg with
@@ -314,7 +292,7 @@ theorem C33_nonstrict_stream {δ} (cfg : Dispatcher δ) (hs : cfg.strict = false
   | nil => simp [poll]
   | cons m ms ih =>
     obtain ⟨i1, i2, i3⟩ := ih
-    have hc := carries_eq_step cfg m
+    have hc := C33_step_delivers_carried cfg m
     have hn := C33_no_crash cfg m
     unfold poll
     cases hstep : pollStep cfg m with
@@ -344,14 +322,14 @@ def Send.expected {δ} (cfg : Dispatcher δ) : Send δ → Option (Bytes × δ)
   | .pub pfx _ name d => if cfg.ourPrefix = [] ∨ pfx = cfg.ourPrefix then some (name, d) else none
   | .raw _ => none
 
-theorem carries_send {δ} (cfg : Dispatcher δ) (s : Send δ) (h : s.ok cfg) :
+theorem C33_send_carried {δ} (cfg : Dispatcher δ) (s : Send δ) (h : s.ok cfg) :
     carries cfg s.bytes = s.expected cfg := by
   cases s with
   | pub pfx dumps name d =>
     obtain ⟨h1, h2, h3⟩ := h
     have hp : mkPublisher pfx dumps = some ⟨pfx, dumps⟩ := by simp [mkPublisher, publisherRejects, h1]
     have := C33_publish_step cfg pfx dumps _ hp name h2 d h3
-    rw [carries_eq_step]
+    rw [C33_step_delivers_carried]
     simp only [Send.bytes, Send.expected]
     simp only [Publisher.call] at this
     rw [this]
@@ -361,7 +339,7 @@ theorem carries_send {δ} (cfg : Dispatcher δ) (s : Send δ) (h : s.ok cfg) :
     rcases h with h | h
     · exact ((C33_malformed_dropped cfg msg).1 h).1
     · have := (C33_malformed_dropped cfg msg).2 h
-      rw [carries_eq_step, this]
+      rw [C33_step_delivers_carried, this]
 
 /-- THE PROPERTY for a non-strict dispatcher: any number of publishers with any space-free
     prefixes publish any documents, interleaved in any way with malformed frames; the dispatcher
@@ -377,7 +355,7 @@ theorem C33_order {δ} (cfg : Dispatcher δ) (hs : cfg.strict = false) (sends : 
   rw [h1, List.filterMap_map]
   apply filterMap_congr_mem
   intro s hsm
-  exact carries_send cfg s (hok s hsm)
+  exact C33_send_carried cfg s (hok s hsm)
 
 /-- STRICT dispatcher: everything before the first malformed frame is delivered as in the
     non-strict case; at the malformed frame `_poll` ends with Bluesky0MQDecodeError, the frame
@@ -395,7 +373,7 @@ theorem C33_strict_stream {δ} (cfg : Dispatcher δ) (hs : cfg.strict = true)
   | cons m ms ih =>
     obtain ⟨i1, ⟨s, i2⟩, i3⟩ := ih (fun x hx => hgood x (List.mem_cons_of_mem _ hx))
     have hm := hgood m (List.mem_cons_self ..)
-    have hc := carries_eq_step cfg m
+    have hc := C33_step_delivers_carried cfg m
     rw [List.cons_append]
     unfold poll
     cases hstep : pollStep cfg m with
@@ -406,7 +384,7 @@ theorem C33_strict_stream {δ} (cfg : Dispatcher δ) (hs : cfg.strict = true)
     | raise s' =>
       exfalso
       rcases C33_classify cfg m with ⟨nd, h⟩ | h | h
-      · rw [carries_eq_step, hstep] at h; cases h
+      · rw [C33_step_delivers_carried, hstep] at h; cases h
       · exact hm h
       · rw [(C33_malformed_dropped cfg m).2 h] at hstep; cases hstep
 
